@@ -1,5 +1,6 @@
 import AioModel.Wire
 import AioModel.C20
+import AioModel.C20Drain
 /-!
 Driver commands of property C20.
 
@@ -102,8 +103,66 @@ def life (entry : String) (apps : List String) : String :=
       s!"log={showLog log} res={showErr e} wf={wf}"
     | _ => "bad-op"
 
+/-! `drain <T> <t0> <ds> C <script> C <script> …`; script `-` | comma list of `<t>:<label>`,
+label `g<d>` | `f<d>` | `p<d>` | `a+b` (pipelined) | `P` | `B`.
+reply `c0=<obs> c1=… ret=<t|never> open=<n|->`, obs `-` | comma list of `<kind>@<t>` -/
+open Aio.C20.Drain in
+def parseReq (s : String) : Option Req :=
+  match s.toList with
+  | 'g' :: d => do pure ⟨.get, ← (String.ofList d).toNat?⟩
+  | 'f' :: d => do pure ⟨.postFull, ← (String.ofList d).toNat?⟩
+  | 'p' :: d => do pure ⟨.postPart, ← (String.ofList d).toNat?⟩
+  | _ => none
+
+open Aio.C20.Drain in
+def parseLabel (s : String) : Option Label :=
+  if s == "P" then some .recvPartial
+  else if s == "B" then some .recvBody
+  else do pure (.recv (← (s.splitOn "+").mapM parseReq))
+
+open Aio.C20.Drain in
+def parseTimed (s : String) : Option (Nat × Label) :=
+  match s.splitOn ":" with
+  | [t, l] => do pure (← t.toNat?, ← parseLabel l)
+  | _ => none
+
+open Aio.C20.Drain in
+def parseConns : List String → Option (List (List (Nat × Label)))
+  | [] => some []
+  | "C" :: sc :: rest => do
+    let s ← parseList parseTimed sc
+    let r ← parseConns rest
+    pure (s :: r)
+  | _ => none
+
+open Aio.C20.Drain in
+def showObs : Obs → Option String
+  | .hs t => some s!"hs@{t}"
+  | .hr t => some s!"hr@{t}"
+  | .resp t => some s!"resp@{t}"
+  | .hx t => some s!"hx@{t}"
+  | .close t => some s!"close@{t}"
+  | .done _ => none
+
+open Aio.C20.Drain in
+def drain (T t0 ds : String) (rest : List String) : String :=
+  match T.toNat?, t0.toNat?, ds.toNat?, parseConns rest with
+  | some T, some t0, some ds, some scripts =>
+    let cs := scripts.map (runConn T t0 ds)
+    let ret := returnTime (t0 + ds) cs
+    let shown := (List.range cs.length).zip cs |>.map (fun (i, c) =>
+      let o := c.obs.filterMap showObs
+      s!"c{i}=" ++ (if o.isEmpty then "-" else ",".intercalate o))
+    let openN := (cs.filter (·.transportOpen)).length
+    " ".intercalate shown ++ (if shown.isEmpty then "" else " ") ++
+      match ret with
+      | some r => s!"ret={r} open={openN}"
+      | none => "ret=never open=-"
+  | _, _, _, _ => "bad-op"
+
 def handle : List String → String
   | "life" :: entry :: apps => life entry apps
+  | "drain" :: T :: t0 :: ds :: rest => drain T t0 ds rest
   | _ => "bad-op"
 
 end Aio.Driver.C20
